@@ -15,6 +15,7 @@
 //	b, err := vsnap.New(root)            scratch DB (WAL mode, autocheckpoint off) at root/src/db.sqlite,
 //	                                     staging dir root/src/wal-staging, snapshot.Store at root/snapshots
 //	                                     (auto-reap disabled through a huge reap threshold)
+//	vsnap.NewWithDB(root, file)          same, the scratch DB starts as a copy of an existing SQLite file
 //	b.Exec(stmts...)                     run write statements on the scratch DB (rqlite db layer)
 //	b.Dump()                             canonical logical dump of the scratch DB (raw driver)
 //	b.Full(index, term)                  full snapshot: Checkpoint(nil) + NewSnapshotStreamer -> Store.Create sink -> Close
@@ -98,7 +99,11 @@ const ckptTimeout = 10 * time.Second
 func Quiet() { log.SetOutput(io.Discard) }
 
 // New creates the scratch database and an empty store under root.
-func New(root string) (*Builder, error) {
+func New(root string) (*Builder, error) { return NewWithDB(root, "") }
+
+// NewWithDB is New with the scratch database starting as a copy of the SQLite
+// file at dbFile (any page size; what a node has after booting from a file).
+func NewWithDB(root, dbFile string) (*Builder, error) {
 	b := &Builder{Root: root, StoreDir: filepath.Join(root, "snapshots")}
 	src := filepath.Join(root, "src")
 	if err := os.MkdirAll(src, 0o755); err != nil {
@@ -106,6 +111,11 @@ func New(root string) (*Builder, error) {
 	}
 	b.DBPath = filepath.Join(src, "db.sqlite")
 	b.staging = filepath.Join(src, "wal-staging")
+	if dbFile != "" {
+		if err := vsql.CopyFile(dbFile, b.DBPath); err != nil {
+			return nil, err
+		}
+	}
 	d, err := db.OpenSwappable(b.DBPath, nil, false, true, 0)
 	if err != nil {
 		return nil, fmt.Errorf("open scratch db: %w", err)
